@@ -177,6 +177,9 @@ CASES = [
     ("s-c11-eof-raises", "C11", "silent", "xdis/unmarshal.py", "        byte1 = ord(self.fp.read(1))\n", "        byte1 = self.fp.read(1)\n        if not byte1:\n            raise EOFError(\"marshal data too short\")\n        byte1 = ord(byte1)\n", ""),
     ("m-c04-stale-hasjabs", "C04", "fire", "xdis/opcodes/base.py", "    if op in loc[\"hasjabs\"]:\n        loc[\"hasjabs\"].remove(op)\n", "", "jump-category"),
     ("m-c10-long-wrapper-py3", "C10", "fire", "xdis/unmarshal.py", "        to_long = long if self.version_tuple < (3, 0) else int", "        to_long = long", "kind@"),
+    ("m-c20-caches-shown", "C20", "fire", "xdis/std.py", "            if show_caches or inst.opname != \"CACHE\":\n                yield inst", "            yield inst", "cache-entries"),
+    ("m-c04-313-range-ends", "C04", "fire", "xdis/bytecode.py", "            if opc.version_tuple >= (3, 13):\n                # From 3.13 on dis also labels the two ends of the protected range.\n                labels.append(start)\n                labels.append(end)\n\n    # label_maps", "\n    # label_maps", "exception-entry-components"),
+    ("m-c04-312-range-ends", "C04", "fire", "xdis/bytecode.py", "            if opc.version_tuple >= (3, 13):\n                # From 3.13 on dis also labels the two ends of the protected range.\n                labels.append(start)\n                labels.append(end)\n\n    # label_maps", "            if opc.version_tuple >= (3, 12):\n                labels.append(start)\n                labels.append(end)\n\n    # label_maps", "exception-entry-components"),
     # ---------------- whole-package reformat, one case per property
     ("s-c01-reformat", "C01", "silent", "*REFORMAT*", "", "", ""),
     ("s-c02-reformat", "C02", "silent", "*REFORMAT*", "", "", ""),
